@@ -35,7 +35,8 @@ StateFor(t) ==
   /\ nJ = t.nj /\ nW = t.n /\ coe = t.coe
   /\ deps = [j \in Jobs |-> IF j <= t.nj THEN t.deps[j] ELSE <<>>]
   /\ outcome = [j \in Jobs |-> "ok"]     \* unused: outcomes come from the w_end / w_dying events
-  /\ ctx = "live"
+  /\ jctx = [j \in Jobs |-> IF j <= t.nj /\ j <= Len(t.jctx) THEN t.jctx[j] ELSE 1]
+  /\ ctx = "live" /\ ctx2 = "live"
   /\ cpc = 1 /\ cres = <<"none">>
   /\ enq = <<>> /\ enqClosed = FALSE /\ donec = <<>> /\ readyClosed = FALSE /\ finClosed = FALSE
   /\ lpc = "sel" /\ ready = <<>> /\ ongoing = 0 /\ pending = 0 /\ waiting = 0 /\ enqOpen = TRUE
@@ -51,7 +52,8 @@ StateForP(t) ==
   /\ nJ' = t.nj /\ nW' = t.n /\ coe' = t.coe
   /\ deps' = [j \in Jobs |-> IF j <= t.nj THEN t.deps[j] ELSE <<>>]
   /\ outcome' = [j \in Jobs |-> "ok"]     \* unused: outcomes come from the w_end / w_dying events
-  /\ ctx' = "live"
+  /\ jctx' = [j \in Jobs |-> IF j <= t.nj /\ j <= Len(t.jctx) THEN t.jctx[j] ELSE 1]
+  /\ ctx' = "live" /\ ctx2' = "live"
   /\ cpc' = 1 /\ cres' = <<"none">>
   /\ enq' = <<>> /\ enqClosed' = FALSE /\ donec' = <<>> /\ readyClosed' = FALSE /\ finClosed' = FALSE
   /\ lpc' = "sel" /\ ready' = <<>> /\ ongoing' = 0 /\ pending' = 0 /\ waiting' = 0 /\ enqOpen' = TRUE
@@ -65,7 +67,7 @@ StateForP(t) ==
 
 TInit == /\ ti = 1 /\ ci = 1 /\ li = 1 /\ wi = [w \in Workers |-> 1]
          /\ IF NT >= 1 THEN StateFor(TF.traces[1])
-            ELSE StateFor([nj |-> 0, n |-> 1, coe |-> FALSE, deps |-> <<>>])
+            ELSE StateFor([nj |-> 0, n |-> 1, coe |-> FALSE, deps |-> <<>>, jctx |-> <<>>])
 
 Live == ti <= NT
 CNext(e) == Live /\ ci <= Len(CE) /\ CE[ci].ev = e /\ ci' = ci + 1
@@ -89,11 +91,11 @@ TCallerClose == CNext("c_close") /\ CallerWaitClose /\ UNCHANGED <<ti, li, wi>>
 \* The cancellation of the context is not logged by the scheduler's hooks.  Nothing but the
 \* worker's check and Wait reads the context, so it is enough to let it happen immediately
 \* before the first step that observes it done.
-TCallerRetCtx == /\ CNext("c_ret_ctx") /\ cpc = nJ + 2 /\ cres' = <<"ctx">> /\ cpc' = nJ + 3 /\ ctx' = "done"
+TCallerRetCtx == /\ CNext("c_ret_ctx") /\ cpc = nJ + 2 /\ cres' = <<"ctx">> /\ cpc' = nJ + 3 /\ ctx' = "done" /\ UNCHANGED ctx2
                  /\ UNCHANGED <<inVars, chanVars, loopVars, jobVars, wrkVars, histVars, ti, li, wi>>
 TCallerRetFin == /\ CNext("c_ret_fin") /\ UNCHANGED <<ti, li, wi>>
                  /\ \/ CallerWaitFin
-                    \/ ctx = "live" /\ ctx' = "done" /\ CallerWaitFinAs("done")
+                    \/ ctx = "live" /\ ctx' = "done" /\ UNCHANGED ctx2 /\ CallerWaitFinAs("done")
                  /\ (CE[ci].err = "nil") = (cres' = <<"nil">>)
 
 \* ---- loop
@@ -120,7 +122,9 @@ TLoopExit == LNext("l_exit") /\ lpc = "exit" /\ UNCHANGED <<vars, ti, ci, wi>>
 \* ---- workers
 TWBegin(w) == WNext(w, "w_begin") /\ wpc[w] # "unborn" /\ UNCHANGED <<vars, ti, ci, li>>
 TWStart(w) == WNext(w, "w_start") /\ WorkerCheck(w) /\ wpc'[w] = "run" /\ UNCHANGED <<ti, ci, li>>
-TWSkipCtx(w) == WNext(w, "w_skip_ctx") /\ WorkerCheckAs(w, "done") /\ ctx' = "done" /\ UNCHANGED <<ti, ci, li>>
+TWSkipCtx(w) == /\ WNext(w, "w_skip_ctx") /\ WorkerCheckAs(w, "done")
+                /\ IF jctx[wjob[w]] = 2 THEN ctx2' = "done" /\ UNCHANGED ctx ELSE ctx' = "done" /\ UNCHANGED ctx2
+                /\ UNCHANGED <<ti, ci, li>>
 TWSkipInv(w) == WNext(w, "w_skip_inv") /\ WorkerCheck(w) /\ wres'[w] = INVERR /\ UNCHANGED <<ti, ci, li>>
 TWEnd(w) == /\ WNext(w, "w_end")
             /\ WorkerRunEnd(w, IF WE(w)[wi[w]].err = "nil" THEN "ok" ELSE "err")
